@@ -55,6 +55,15 @@ Definition after_boot (b : boot) (peers : list N) (d : mem) : mem :=
          m_snap := m_snap d; m_ents := m_ents d ++ es |}
   end.
 
+(* ---- a replica joining a running group (partition.addNode) ---- *)
+(* the peers the join path hands to the boot rule: none (the joiner takes the group's log), or - [passes_members] - the
+   partition's replica list, as the allocator's first start does *)
+Definition join_peers (passes_members : bool) (members : list N) : list N := if passes_members then members else [].
+Definition join_boot (guarded passes_members : bool) (members : list N) (d : mem) : mem :=
+  after_boot (boot_rule guarded (join_peers passes_members members) d) (join_peers passes_members members) d.
+(* what a store holds as committed is what the group's log [g] holds at those positions *)
+Definition committed_agrees (d g : mem) : Prop := forall i, 1 <= i <= h_commit (m_hard d) -> m_term d i = m_term g i.
+
 (* ---- recovery of a partition ---- *)
 (* the committed history as the state machine sees it: entry k (1-based) carries a change or nothing (conf / empty) *)
 Definition history := list (option change).
